@@ -57,6 +57,11 @@ func init() {
 	symBytes["s:big70"] = patterned(70001, 3)
 	symBytes["s:big200"] = patterned(200000, 4)
 	symBytes["s:big63"] = patterned(65535, 5)
+	// long credentials: the same first 512 (and 1024) bytes, different ends
+	symBytes["pw:long"] = patterned(1500, 6)
+	symBytes["pw:long512"] = patterned(1500, 6)[:512] + patterned(988, 7)
+	symBytes["pw:long1024"] = patterned(1500, 6)[:1024] + patterned(476, 8)
+	symBytes["pw:longcut"] = patterned(1500, 6)[:512]
 	for s, b := range symBytes {
 		if _, ok := bytesSym[b]; !ok {
 			bytesSym[b] = s
